@@ -1140,3 +1140,74 @@ pub fn maybe_reverse_empty(rng: &mut Rng, seq: &mut SeqCase) {
         seq.new_range.1 = rng.usize(seq.new_range.0);
     }
 }
+
+/// A long run of identical (or periodic) items with a marker item that moves
+/// far down the run and one extra item: slides of thousands of single steps.
+pub fn gen_long_run(rng: &mut Rng) -> (Vec<u32>, Vec<u32>) {
+    let period = 1 + rng.usize(2);
+    let span = if rng.chance(1, 2) { 900 } else { 5200 };
+    let run = 1100 + rng.usize(span);
+    let item = |i: usize| (i % period) as u32;
+    match rng.below(3) {
+        0 => {
+            // one item more in the run
+            let mut old: Vec<u32> = (0..run).map(item).collect();
+            let mut new: Vec<u32> = (0..run + period).map(item).collect();
+            old.push(77);
+            new.push(77);
+            (old, new)
+        }
+        1 => {
+            // a marker sits early in the run and moves far down; the run grows
+            let at = 10 + rng.usize(20);
+            let down = run - 20 - rng.usize(40);
+            let mut old: Vec<u32> = (0..run).map(item).collect();
+            let mut new: Vec<u32> = (0..run + period).map(item).collect();
+            old.insert(at, 88);
+            new.insert(down, 88);
+            (old, new)
+        }
+        _ => {
+            // a change in front, the long run, more changes behind it
+            let mut old = vec![91u32];
+            let mut new = vec![92u32, 0];
+            old.extend((0..run).map(item));
+            new.extend((0..run).map(item));
+            old.extend_from_slice(&[93, 0, 94]);
+            new.extend_from_slice(&[0, 95, 0, 94]);
+            (old, new)
+        }
+    }
+}
+
+/// Two matched unique items with more than 16384 items between them on both
+/// sides (a changed item, then a long repeated stretch).
+pub fn gen_big_gap(rng: &mut Rng) -> (Vec<u32>, Vec<u32>) {
+    let gap = 16_400 + rng.usize(4000);
+    let mut old = vec![1001u32, 5];
+    let mut new = vec![1001u32, 6];
+    for i in 0..gap {
+        let x = (i % 3) as u32;
+        old.push(x);
+        new.push(x);
+    }
+    old.push(1002);
+    new.push(1002);
+    old.extend_from_slice(&[7, 8]);
+    new.extend_from_slice(&[8]);
+    (old, new)
+}
+
+/// A lopsided pair with more than 16384 differences: many distinct items on
+/// one side, a few unrelated ones on the other.
+pub fn gen_lopsided(rng: &mut Rng) -> (Vec<u32>, Vec<u32>) {
+    let long = 16_500 + rng.usize(1500);
+    let short = 20 + rng.usize(40);
+    let a: Vec<u32> = (0..long as u32).map(|i| 10_000 + i).collect();
+    let b: Vec<u32> = (0..short as u32).map(|i| 5_000_000 + i).collect();
+    if rng.chance(1, 2) {
+        (a, b)
+    } else {
+        (b, a)
+    }
+}
